@@ -1,6 +1,7 @@
 package transport
 
 import (
+	"errors"
 	"fmt"
 	"io"
 	"os"
@@ -208,7 +209,9 @@ func (t *Standard) Open(a *Args) error {
 func (t *Standard) Close() error {
 	if t.session != nil {
 		err := t.session.Close()
-		if err != nil {
+		// io.EOF means the peer closed the session before we did (the device logged us out, an
+		// on-close "exit"): it is closed, and the client under it still has to be.
+		if err != nil && !errors.Is(err, io.EOF) {
 			return err
 		}
 
